@@ -1,0 +1,6 @@
+//go:build !verif
+// +build !verif
+
+package slog
+
+func verifEvent(point string, a, b uintptr) {}
